@@ -7,10 +7,15 @@ THEOREMS = [
     "C15_settle_sound", "C15_monotone", "C15_amt_paid",
     "C15_replay_same_verdict", "C15_replay_same_verdict_amp", "C15_no_settle_and_cancel",
     "C15_replay_keysend_refuted", "C15_replay_amp_jit_refuted", "C15_amp_kv_reuse_refuted",
+    # AMP (Invoice/AmpProps.v)
+    "C15_amp_settle_only_complete", "C15_amp_fresh_settle_needs_complete", "C15_amp_atomic",
+    "C15_amp_hash_checks_agree", "C15_amp_accounting", "C15_amp_sets_independent",
+    "C15_amp_set_state_not_final_refuted", "C15_amp_paid_settled_only_refuted",
 ]
-MODULE = "LV.Invoice.Props"
+MODULE = "LV.Invoice.Props LV.Invoice.AmpProps"
 TARGETS = ["theories/Invoice/Props.vo", "theories/Invoice/Exec.vo",
-           "theories/Invoice/Examples.vo"]
+           "theories/Invoice/Examples.vo", "theories/Invoice/AmpProps.vo",
+           "theories/Invoice/AmpExamples.vo"]
 HARNESS = ["invoices/verif_registry_test.go", "invoices/verif_registry_kv_test.go"]
 TAGS = "verif test_db_sqlite"
 WARM = [{"pkg": "invoices", "files": HARNESS, "tags": TAGS}]
@@ -99,8 +104,10 @@ def t_snap(s):
                 for h in s["htlcs"]])
     sets = clist(["(%s, (%s, %s))" % (cN(a[0]), HSTATE_N.get(a[1], "HAccepted"), cN(a[2]))
                   for a in (s.get("amp_state") or [])])
-    return "(mkIS %s %s %s %s %s %s)" % (cN(s["hash"]), CSTATE[s["state"]], cN(s["paid"]),
-                                         copt(s["pre"], cN), hs, sets)
+    keys = clist(["(%s, %s)" % (cN(a[0]), clist([cN(k) for k in a[1:]]))
+                  for a in (s.get("amp_keys") or [])])
+    return "(mkIS %s %s %s %s %s %s %s)" % (cN(s["hash"]), CSTATE[s["state"]], cN(s["paid"]),
+                                            copt(s["pre"], cN), hs, sets, keys)
 
 
 def t_case(c):
@@ -405,6 +412,311 @@ def set_conditions(c, terms, inv, hrec, arrived, settled_at):
     return out
 
 
+# ------------------------------------------- AMP clauses (a)-(e) on the impl trace
+
+def _xor(a, b):
+    return bytes(x ^ y for x, y in zip(a, b))
+
+
+def _amp_child_pre(root, share, idx):
+    """amp.DeriveChild: child_preimage = SHA256(root || share || be32(index))."""
+    return hashlib.sha256(root + share + int(idx).to_bytes(4, "big")).hexdigest()
+
+
+def _proj_state(mem):
+    """AMPState[set].State as a function of the set's htlc records."""
+    if any(h["state"] == "settled" for h in mem):
+        return 2
+    if any(h["state"] == "canceled" for h in mem):
+        return 1
+    return 0
+
+
+def _is_amp_snap(s):
+    return bool(s.get("amp_state")) or any(h.get("amp") for h in s["htlcs"])
+
+
+def amp_predicate(c):
+    """Clauses (a)-(e) of the AMP part of C15, evaluated on the implementation's
+    own trace (independent of the Coq model; SHA-256 and the AMP child
+    derivation are recomputed here).  Returns [(theorem, message)]."""
+    fails = []
+    rd = c["cfg"]["rd"]
+    kv = c["backend"] == "kv"
+    terms = {}       # invoice hash id -> terms
+    arrived = {}     # key -> first notify input
+    prev = {}
+    vanished = set()     # KV: keys whose record disappeared (finding C15-F2, reported by predicate())
+    fresh_settled = {}   # key -> op index of its accepted/new -> settled transition
+    for oi, o in enumerate(c["ops"]):
+        ev = o["ev"]
+        where = "op %d %s" % (oi, ev[0])
+        if ev[0] == "add" and o["reply"] == ["api", "ok"]:
+            terms[ev[1]["hash"]] = ev[1]
+        if ev[0] == "notify":
+            arrived.setdefault(ev[1]["key"], ev[1])
+        snaps = {s["hash"]: s for s in o["snap"]}
+        for hid, s in snaps.items():
+            if hid not in terms and hid not in prev and ev[0] == "notify" and ev[1].get("amp") \
+                    and c["cfg"].get("amp") and ev[1]["mpp"] is not None:
+                terms[hid] = {"hash": hid, "addr": ev[1]["mpp"][0], "value": ev[1]["mpp"][1],
+                              "delta": rd, "amp": True, "jit": True}
+        for hid, ps in prev.items():
+            s = snaps.get(hid)
+            if s is None:
+                continue
+            now = {h["key"] for h in s["htlcs"]}
+            for ph in ps["htlcs"]:
+                if ph["key"] not in now:
+                    vanished.add(ph["key"])
+        replayed = None
+        if ev[0] == "notify":
+            for ps in prev.values():
+                for h in ps["htlcs"]:
+                    if h["key"] == ev[1]["key"]:
+                        replayed = h
+        # (e) a replay of a recorded htlc changes nothing at all
+        if replayed is not None and [snaps.get(h) for h in sorted(prev)] != [prev[h] for h in sorted(prev)]:
+            fails.append(("C15_replay_same_verdict_amp", "%s: replay of recorded htlc %d changed the "
+                          "invoice database" % (where, ev[1]["key"])))
+        settles = [r for r in ([o["reply"]] + o["ntf"]) if r and r[0] == "settle"]
+        for hid, s in snaps.items():
+            t = terms.get(hid)
+            if not (t and t.get("amp")) and not _is_amp_snap(s):
+                continue
+            ps = prev.get(hid)
+            pmap = {h["key"]: h for h in (ps["htlcs"] if ps else [])}
+            pstate = {a[0]: a for a in ((ps.get("amp_state") or []) if ps else [])}
+            clean = not (kv and any(h["key"] in vanished for h in pmap.values()))
+            # ---- which set does this op touch on this invoice
+            touched = None       # None = any set may change (CancelInvoice)
+            if ev[0] == "notify":
+                touched = {ev[1].get("set_id")} if ev[1].get("amp") else set()
+            elif ev[0] == "timeout_set":
+                touched = {ev[1]}
+            elif ev[0] == "timeout":
+                touched = {h.get("set_id") for h in s["htlcs"] if h["key"] == ev[3]}
+            elif ev[0] in ("add", "settle"):
+                touched = set()
+            # ---- (d) sets do not interfere: records / AMPState of untouched sets are unchanged
+            if ps is not None and touched is not None:
+                for h in s["htlcs"]:
+                    if h.get("set_id") not in touched and h["key"] in pmap and pmap[h["key"]] != h:
+                        fails.append(("C15_amp_sets_independent", "%s: htlc %d of set %s changed by an "
+                                      "event on set(s) %s" % (where, h["key"], h.get("set_id"),
+                                                              sorted(touched))))
+                for a in (s.get("amp_state") or []):
+                    if a[0] not in touched and pstate.get(a[0]) not in (None, a):
+                        fails.append(("C15_amp_sets_independent", "%s: AMPState[%d] changed by an "
+                                      "event on set(s) %s" % (where, a[0], sorted(touched))))
+                if ev[0] == "timeout_set":
+                    for h in s["htlcs"]:
+                        if h["key"] != ev[2] and h["key"] in pmap and pmap[h["key"]] != h:
+                            fails.append(("C15_amp_sets_independent", "%s: set timer of htlc %d changed "
+                                          "htlc %d" % (where, ev[2], h["key"])))
+            # ---- (a) the batch settled by this op
+            batch = [h for h in s["htlcs"] if h["state"] == "settled" and h.get("amp")
+                     and (pmap.get(h["key"]) is None or pmap[h["key"]]["state"] == "accepted")
+                     and h["key"] not in vanished]
+            for h in batch:
+                if h["key"] in fresh_settled:
+                    fails.append(("C15_amp_set_resolved_once", "%s: htlc %d settled a second time (first "
+                                  "at op %d)" % (where, h["key"], fresh_settled[h["key"]])))
+                fresh_settled.setdefault(h["key"], oi)
+            if batch:
+                tt = "C15_amp_settle_only_complete"
+                if not (ev[0] == "notify" and ev[1].get("amp") and o["reply"][0] == "settle"
+                        and o["reply"][4] == "settled" and o["reply"][1] == ev[1]["key"]):
+                    fails.append((tt, "%s: AMP htlcs %s became settled without a settling arrival"
+                                  % (where, [h["key"] for h in batch])))
+                else:
+                    hin = ev[1]
+                    sid, total = hin["set_id"], (hin["mpp"][1] if hin["mpp"] else 0)
+                    if sid == 0:
+                        fails.append((tt, "%s: set with the blank set id settled" % where))
+                    if hin["key"] not in [h["key"] for h in batch]:
+                        fails.append((tt, "%s: arriving htlc %d not in the settled batch" % (where, hin["key"])))
+                    if any(h["set_id"] != sid for h in batch):
+                        fails.append((tt, "%s: batch spans set ids %s" % (where, sorted({h["set_id"] for h in batch}))))
+                    if ps is not None and ps["state"] != "open":
+                        fails.append((tt, "%s: set settled on a %s invoice" % (where, ps["state"])))
+                    if any(h["total"] != total for h in batch):
+                        fails.append((tt, "%s: batch declares totals %s, arrival %d"
+                                      % (where, sorted({h["total"] for h in batch}), total)))
+                    if t is not None and (total == 0 or total < t["value"]):
+                        fails.append((tt, "%s: set total %d below the invoice value %d" % (where, total, t["value"])))
+                    ssum = sum(h["amt"] for h in batch)
+                    if ssum < total:
+                        fails.append((tt, "%s: set %d settled with %d < declared total %d (other sets "
+                                      "must not be borrowed from)" % (where, sid, ssum, total)))
+                    # every accepted htlc of the set is in the batch (the whole set settles)
+                    if any(h["state"] == "accepted" and h.get("set_id") == sid for h in s["htlcs"]):
+                        fails.append((tt, "%s: set %d settled but holds an accepted htlc" % (where, sid)))
+                    root, ok_shares = bytes(32), True
+                    for h in batch:
+                        a = arrived.get(h["key"])
+                        if a is None:
+                            fails.append((tt, "%s: settled htlc %d never arrived" % (where, h["key"])))
+                            ok_shares = False
+                            continue
+                        if t is not None:
+                            if a["mpp"] is None or a["mpp"][0] != t["addr"]:
+                                fails.append((tt, "%s: htlc %d carried address %s, invoice has %s"
+                                              % (where, h["key"], a["mpp"] and a["mpp"][0], t["addr"])))
+                            need = max(rd, t["delta"])
+                            if h["expiry"] < h["height"] + need:
+                                fails.append((tt, "%s: htlc %d settled with expiry %d < %d + %d"
+                                              % (where, h["key"], h["expiry"], h["height"], need)))
+                        if a.get("set_id") != h["set_id"] or a["amt"] != h["amt"] or \
+                                (a["mpp"] and a["mpp"][1] != h["total"]):
+                            fails.append((tt, "%s: record of htlc %d differs from what it arrived with"
+                                          % (where, h["key"])))
+                        if h.get("amp_pre_hex") is None or sha(h["amp_pre_hex"]) != a["hash_hex"]:
+                            fails.append((tt, "%s: htlc %d settled without a preimage of its payment hash"
+                                          % (where, h["key"])))
+                        if a.get("share_hex"):
+                            root = _xor(root, bytes.fromhex(a["share_hex"]))
+                        else:
+                            ok_shares = False
+                    if ok_shares:
+                        # the real derivation, redone here: the batch is a COMPLETE sharing
+                        for h in batch:
+                            a = arrived[h["key"]]
+                            want = _amp_child_pre(root, bytes.fromhex(a["share_hex"]), a["idx"])
+                            if h.get("amp_pre_hex") != want:
+                                fails.append((tt, "%s: preimage of htlc %d is not the child derived from "
+                                              "the XOR of the batch's shares" % (where, h["key"])))
+                    bk = {h["key"]: h for h in batch}
+                    for r in settles:
+                        if r[1] not in bk:
+                            fails.append((tt, "%s: settle resolution for htlc %d outside the settled "
+                                          "batch" % (where, r[1])))
+                        elif r[5] != bk[r[1]].get("amp_pre_hex"):
+                            fails.append((tt, "%s: htlc %d resolved with a preimage other than its own"
+                                          % (where, r[1])))
+            # ---- (b) set / htlc resolutions are final
+            if ps is not None and clean:
+                for sid, a in pstate.items():
+                    now = {x[0]: x for x in (s.get("amp_state") or [])}.get(sid)
+                    if now is None:
+                        fails.append(("C15_amp_set_resolved_once", "%s: AMPState[%d] disappeared" % (where, sid)))
+                    elif a[1] == 2 and now[1] != 2:
+                        fails.append(("C15_amp_set_resolved_once", "%s: settled set %d moved to state %d"
+                                      % (where, sid, now[1])))
+                    elif a[1] != 0 and now[1] == 0:
+                        fails.append(("C15_amp_set_resolved_once", "%s: set %d re-opened (state %d -> accepted)"
+                                      % (where, sid, a[1])))
+                for h in s["htlcs"]:
+                    ph = pmap.get(h["key"])
+                    if ph is not None and ph["state"] != "accepted" and ph != h:
+                        fails.append(("C15_amp_set_resolved_once", "%s: resolved htlc %d changed"
+                                      % (where, h["key"])))
+            # ---- (c) AmtPaid / AMPState are the projection of the htlc map
+            if clean and not (kv and any(h["key"] in vanished for h in s["htlcs"])) and \
+                    not (kv and vanished):
+                bysid = {}
+                for h in s["htlcs"]:
+                    if h.get("amp"):
+                        bysid.setdefault(h["set_id"], []).append(h)
+                ent = {a[0]: a for a in (s.get("amp_state") or [])}
+                keys = {a[0]: a[1:] for a in (s.get("amp_keys") or [])}
+                tc = "C15_amp_accounting"
+                if set(ent) != set(bysid):
+                    fails.append((tc, "%s: AMPState has sets %s, the htlc map %s"
+                                  % (where, sorted(ent), sorted(bysid))))
+                for sid, mem in bysid.items():
+                    a = ent.get(sid)
+                    if a is None:
+                        continue
+                    if a[1] != _proj_state(mem):
+                        fails.append((tc, "%s: AMPState[%d].State = %d, htlc states %s"
+                                      % (where, sid, a[1], sorted(h["state"] for h in mem))))
+                    want = sum(h["amt"] for h in mem if h["state"] != "canceled") % W64
+                    if a[2] != want:
+                        fails.append((tc, "%s: AMPState[%d].AmtPaid = %d, accepted+settled sum %d"
+                                      % (where, sid, a[2], want)))
+                    if "amp_keys" in s and keys.get(sid) != sorted(h["key"] for h in mem):
+                        fails.append((tc, "%s: AMPState[%d].InvoiceKeys = %s, htlc map has %s"
+                                      % (where, sid, keys.get(sid), sorted(h["key"] for h in mem))))
+                    if any(h["state"] == "settled" for h in mem) and any(h["state"] == "accepted" for h in mem):
+                        fails.append((tc, "%s: set %d holds settled and accepted htlcs" % (where, sid)))
+                live = sum(h["amt"] for h in s["htlcs"] if h["state"] != "canceled") % W64
+                if s["paid"] != live or s["paid"] != sum(a[2] for a in ent.values()) % W64:
+                    fails.append((tc, "%s: AmtPaid %d, htlc map %d, AMPState sum %d"
+                                  % (where, s["paid"], live, sum(a[2] for a in ent.values()))))
+                if not any(h["state"] == "accepted" for h in s["htlcs"]):
+                    st_sets = sum(h["amt"] for h in s["htlcs"] if h["state"] == "settled") % W64
+                    if s["paid"] != st_sets:
+                        fails.append((tc, "%s: no set in flight but AmtPaid %d != settled sets %d"
+                                      % (where, s["paid"], st_sets)))
+        prev = snaps
+        if len(fails) > 8:
+            break
+    return fails
+
+
+def amp_kinds(c):
+    """Which AMP situations a case exercised (for the evidence histogram)."""
+    kinds = set()
+    if c["kind"] == "model":
+        return kinds
+    if c.get("scenario"):
+        kinds.add("scenario:" + c["scenario"])
+    prev = {}
+    value = {}
+    for o in c["ops"]:
+        ev, r = o["ev"], o["reply"]
+        if ev[0] == "add" and r == ["api", "ok"]:
+            value[ev[1]["hash"]] = ev[1]["value"]
+        snaps = {s["hash"]: s for s in o["snap"]}
+        for hid, s in snaps.items():
+            ps = prev.get(hid)
+            if not _is_amp_snap(s):
+                continue
+            held = {}
+            for h in s["htlcs"]:
+                if h["state"] == "accepted":
+                    held[h.get("set_id")] = held.get(h.get("set_id"), 0) + h["amt"]
+            if len(held) >= 2:
+                kinds.add("two_sets_in_flight")
+                if value.get(hid) and sum(held.values()) >= value[hid]:
+                    kinds.add("held_sets_together_reach_value_none_complete")
+            pst = {a[0]: a[1] for a in ((ps or {}).get("amp_state") or [])}
+            for a in (s.get("amp_state") or []):
+                if pst.get(a[0]) == 1 and a[1] == 2:
+                    kinds.add("set_canceled_then_settled")
+                if pst.get(a[0]) == 2 and a[1] == 2 and r[0] == "settle" and r[4] == "settled" \
+                        and ev[0] == "notify" and ev[1].get("set_id") == a[0]:
+                    kinds.add("settled_set_id_paid_again")
+            if r[0] == "settle" and r[4] == "settled" and ev[0] == "notify" and ev[1].get("amp"):
+                kinds.add("set_settled")
+                n = len([1 for h in s["htlcs"] if h.get("set_id") == ev[1]["set_id"] and h["state"] == "settled"])
+                kinds.add("set_settled_%s_shards" % ("1" if n == 1 else "2+"))
+                if held:
+                    kinds.add("set_settled_while_other_set_held")
+                if sum(h["amt"] for h in s["htlcs"] if h.get("set_id") == ev[1]["set_id"]
+                       and h["state"] == "settled") > (ev[1]["mpp"] or [0, 0])[1]:
+                    kinds.add("set_overpaid")
+            if ev[0] == "cancel" and ps is not None and ev[1] == hid:
+                if any(h["state"] == "accepted" for h in ps["htlcs"]):
+                    kinds.add("cancel_invoice_with_held_sets:" + r[1])
+        if ev[0] == "timeout_set" and o["ntf"]:
+            kinds.add("set_timer_release")
+        if ev[0] == "notify" and ev[1].get("amp"):
+            if ev[1].get("after_restart"):
+                kinds.add("replay_after_restart")
+            if r[0] == "settle" and r[4] == "replay_settled":
+                kinds.add("replay_of_settled")
+            if r[0] == "fail":
+                kinds.add("fail:" + r[3])
+            if r[0] == "err":
+                kinds.add("update_error")
+        prev = snaps
+    if c.get("restarts"):
+        kinds.add("registry_restarted")
+    return kinds
+
+
 # --------------------------------------------------------------------- run
 
 def run(ctx):
@@ -412,10 +724,18 @@ def run(ctx):
         "hash function H is a Section variable (theorems hold for any H); execution uses a "
         "per-case table computed by the harness with crypto/sha256, the python predicate "
         "recomputes SHA-256 itself",
-        "AMP reconstruction (amp.ReconstructChildren) is a Section variable R with NO hypothesis: the "
-        "theorems rest on the code's own checks (child hash = htlc hash, H(preimage) = htlc hash), which "
-        "the model mirrors; execution uses a per-case table computed by the harness with the real amp "
-        "package for every subset of the AMP records of one set id",
+        "AMP reconstruction (amp.ReconstructChildren) is a Section variable R; the soundness theorems need NO "
+        "hypothesis on it (they rest on the code's own checks: child hash = htlc hash, H(preimage) = htlc "
+        "hash, which the model mirrors); C15_amp_atomic carries the stated secrecy hypothesis R_atomic (a "
+        "reconstruction reproducing one child hash of a sharing D was made from all descriptors of D -- XOR "
+        "n-of-n sharing + SHA-256, a cryptographic assumption, satisfiable: AmpExamples.xR2_atomic) and "
+        "C15_amp_hash_checks_agree the hypothesis child.Hash = H(child.Preimage) (amp.DeriveChild; checked on "
+        "every oracle point of the run); execution uses a per-case table computed by the harness with the real "
+        "amp package for every subset of the AMP records of one set id, and the python predicate redoes the "
+        "derivation itself (root = XOR of the batch's shares, preimage = SHA256(root||share||be32(index)))",
+        "C15_amp_accounting: SQL store (g_kv = false) and total htlc volume of the invoice < 2^64; restarts of "
+        "the registry are not model events (hodl subscriptions are the only volatile state; the harness replays "
+        "every held htlc after a restart, as the links do)",
         "event-sequence hypothesis of C15_no_settle_and_cancel / C15_replay_same_verdict: a circuit "
         "key always arrives with the same payment hash and onion payload (link invariant); the model "
         "answers DUnmodelled when a key recorded on an AMP invoice arrives with another set id / no AMP record",
@@ -433,7 +753,7 @@ def run(ctx):
     nknown = {}
     pred_bad = set()
     for ci, c in enumerate(rows):
-        f = predicate(c)
+        f = predicate(c) + amp_predicate(c)
         if f:
             pred_bad.add(ci)
             other = [x for x in f if not x[1].startswith(KNOWN_SIG)]
@@ -477,7 +797,8 @@ def run(ctx):
     if ctx.thorough and pr["ok"]:
         ctx.coqchk(["LV.Invoice.Props"])
     # coverage
-    hist = {"event": {}, "reply": {}, "ntf": {}, "invoice_kind": {}, "backend": {}, "kind": {}}
+    hist = {"event": {}, "reply": {}, "ntf": {}, "invoice_kind": {}, "backend": {}, "kind": {},
+            "amp_case_kinds": {}}
 
     def bump(h, k):
         hist[h][k] = hist[h].get(k, 0) + 1
@@ -495,6 +816,10 @@ def run(ctx):
                 bump("ntf", n[0] + ":" + (n[4] if n[0] == "settle" else n[3]))
             if o["ev"][0] == "add":
                 bump("invoice_kind", o["ev"][1]["kind"])
+    hist["amp_case_kinds"] = {}
+    for c in rows:
+        for k in amp_kinds(c):
+            bump("amp_case_kinds", k)
     nontriv = [c for c in rows if any(o["reply"][0] == "settle" or o["ntf"] for o in c["ops"])]
     ctx.cov.update({
         "evaluations": len(rows),
@@ -514,10 +839,24 @@ def run(ctx):
         "predicate_failures": nfail,
         "cases_hitting_known_findings": nknown,
     })
+    # hypotheses on R used by theorems, checked on every oracle point of the run
+    bad_oracle = 0
+    for c in rows:
+        tb = dict((a, b) for a, b in c["tbl"])
+        for e in (c.get("amp_tbl") or []):
+            if len(e["res"]) != len(e["descs"]) or any(tb.get(p) != hh for hh, p in e["res"]):
+                bad_oracle += 1
+    if bad_oracle:
+        ctx.violation("impl_violates_predicate", "C15_amp_hash_checks_agree",
+                      {"oracle_points_violating_R_wellformed": bad_oracle},
+                      signature="amp oracle: child hash != sha256(child preimage)", failing_input=False)
+    ctx.cov["amp_oracle_points_R_wellformed"] = bad_oracle == 0
     ctx.assumptions += [
-        "AMP: invoice-level AmtPaid and AMPState[set].AmtPaid/State are compared with the model and checked "
-        "by the trace predicate; there is no Coq theorem about their values (C15_amt_paid covers settled "
-        "non-AMP invoices); AMPState.InvoiceKeys / settle index are not compared",
+        "AMP: AmtPaid / AMPState (State, AmtPaid, InvoiceKeys) = projection of the htlc map: theorem "
+        "C15_amp_accounting (SQL store, no uint64 overflow; InvoiceKeys by definition of the projection, compared "
+        "with the implementation on the SQL store) + trace predicate + differential run; settle index / dates "
+        "are not compared; at the level of a set id 'settled once / never after canceled' is refuted by design "
+        "(C15_amp_set_state_not_final_refuted), the per-htlc form is C15_no_settle_and_cancel",
         "KV store, AMP: htlc records may vanish (known finding C15-F2) -- C15_monotone / "
         "C15_no_settle_and_cancel claim nothing about AMP htlc records when g_kv = true",
         "HTLC interceptor absent (MockHtlcModifier without expectations)",
